@@ -120,9 +120,9 @@ def plan(tier, sd):
     r = random.Random(sd * 104729 + 8)
     q = tier == 'quick'
     gens = fixed_cases()
-    for i in range(1000 if q else 30000):
+    for i in range(1000 if q else 24000):
         gens.append(ramdrv.gen_case(r, 'ns48', i))
-    for i in range(500 if q else 12000):
+    for i in range(500 if q else 9000):
         gens.append(ramdrv.gen_case(r, 'sim128', i))
     return gens
 
